@@ -8,7 +8,12 @@
    afterwards) and the quick rules must report it (exit 1, expected rule).  A seeded change that no longer
    applies to the tree is skipped and listed; one that applies and is no longer reported means the checker has
    regressed: exit 2, never a pass;
-3. cross-reference - cppcheck over the property's anchor files with the real include paths; output is stored
+3. regression self-test - every `fix:` commit recorded in known_findings.txt for this property is reverted on a scratch
+   copy of the current sources (the reverse patches are kept under /verif/regress/<commit>/) and the quick rules must
+   report the rule named in its `fixed:` line again: "a fixed entry suppresses nothing ... and reports the violation
+   again if it ever returns".  Reverse patches that no longer apply (the code was changed again by a later repair) are
+   skipped and listed; one that applies and is not reported is exit 2;
+4. cross-reference - cppcheck over the property's anchor files with the real include paths; output is stored
    next to the evidence (evidence/xref/<id>.cppcheck.txt) for the reader and plays no part in the verdict.
 """
 import json
@@ -106,6 +111,43 @@ def run_selftest(prop, chk, scratch):
     return res
 
 
+def run_regress(prop, chk, scratch):
+    rdir = os.path.join(VERIF, "regress")
+    jobs = []
+    if os.path.isdir(rdir):
+        for c in sorted(os.listdir(rdir)):
+            mp = os.path.join(rdir, c, "meta.json")
+            if not os.path.exists(mp):
+                continue
+            meta = json.load(open(mp))
+            rules = [e["rule"] for e in meta.get("expect", []) if e["property"] == prop]
+            if rules:
+                jobs.append((c, rules, meta.get("subject", "")))
+
+    def one(job):
+        c, rules, subject = job
+        w = os.path.join(scratch, "regress-" + c)
+        os.makedirs(os.path.join(w, "repo"))
+        try:
+            if not _apply(os.path.join(rdir, c), os.path.join(w, "repo")):
+                return {"commit": c, "result": "skipped", "why": "the reverse patch no longer applies to the current tree"}
+            rc, txt = _run_check(prop, {"JV_REPO": os.path.join(w, "repo"), "JV_CACHE": os.path.join(w, "cache"),
+                                        "JV_OUT": os.path.join(w, "out"), "JV_CONFIG": ""})
+            hit = sorted(set(r for r in rules if (r + " ") in txt))
+            if rc == 1 and len(hit) == len(set(rules)):
+                return {"commit": c, "result": "reported again", "rules": hit, "fix": subject[:100]}
+            return {"commit": c, "result": "MISSED", "exit": rc, "expected": rules, "got": hit}
+        finally:
+            shutil.rmtree(w, ignore_errors=True)
+    with ThreadPoolExecutor(max_workers=8) as ex:
+        res = list(ex.map(one, jobs))
+    missed = [r for r in res if r["result"] == "MISSED"]
+    if missed:
+        raise AnalysisBroken("regression self-test: reverting fix %s is no longer reported by %s (expected %s, got %s)" % (
+            missed[0]["commit"], prop, missed[0]["expected"], missed[0]["got"]))
+    return res
+
+
 def run_xref(prop, chk):
     """cppcheck over the anchor files; informational"""
     props = {}
@@ -139,6 +181,7 @@ def run(prop, chk):
     try:
         cfgs = run_configs(prop, chk, scratch)
         st = run_selftest(prop, chk, scratch)
+        rg = run_regress(prop, chk, scratch)
         xr = run_xref(prop, chk)
     finally:
         shutil.rmtree(scratch, ignore_errors=True)
@@ -147,7 +190,13 @@ def run(prop, chk):
                              "results": st,
                              "detected": sum(1 for r in st if r["result"] == "detected"),
                              "skipped": sum(1 for r in st if r["result"] == "skipped")}
+    chk.extra["regression"] = {"what": "every fix: commit recorded for this property reverted on a scratch copy of the current sources; "
+                                       "the rule of its `fixed:` line must report it again",
+                               "results": rg,
+                               "reported_again": sum(1 for r in rg if r["result"] == "reported again"),
+                               "skipped": sum(1 for r in rg if r["result"] == "skipped")}
     if xr:
         chk.extra["cross_reference"] = xr
-    chk.note("thorough: %d extra configuration(s), %d seeded change(s) re-detected, %d skipped" % (
-        len(cfgs), chk.extra["selftest"]["detected"], chk.extra["selftest"]["skipped"]))
+    chk.note("thorough: %d extra configuration(s), %d seeded change(s) re-detected, %d skipped; %d reverted fix(es) reported again, %d skipped" % (
+        len(cfgs), chk.extra["selftest"]["detected"], chk.extra["selftest"]["skipped"],
+        chk.extra["regression"]["reported_again"], chk.extra["regression"]["skipped"]))
